@@ -83,6 +83,44 @@ Proof. apply (robust_of_spec _ 16 (-64)%Z (4 * Z.of_N max_prealloc)%Z _ _ (fun F
 Theorem robust_floatlist_read : robust (floatlist_read precap_of_code) 16 8192.
 Proof. apply (robust_of_spec _ 16 (-64)%Z (8 * Z.of_N max_prealloc)%Z _ _ (fun F => spec_floatlist_read F max_prealloc)); unfold max_prealloc; lia. Qed.
 
+(** the reuse-mode decoders (New...Decoder(true)): the other branch of strSlice /
+    makeUintSlice / makeFloatSlice *)
+Theorem robust_strlist_read_reuse : robust (strlist_read1_reuse precap_of_code) 16 544788.
+Proof.
+  apply (robust_of_spec _ 16 266180%Z (K_strlist max_prealloc + 4096)%Z _ _
+           (fun F => spec_strlist_read1_reuse F max_prealloc)); unfold K_strlist, max_prealloc; lia.
+Qed.
+
+Theorem robust_strlist_read_bytes_reuse : robust (strlist_read_bytes_g true) 16 262200.
+Proof. apply (robust_of_spec _ 16 262160%Z 262200%Z _ _ (fun F => spec_strlist_read_bytes_g F true)); lia. Qed.
+
+Theorem robust_uintlist_entry ru : robust (uintlist_entry ru precap_of_code) 16 5124.
+Proof.
+  apply (robust_of_spec _ 16 (Z.of_N (4 + ctor_cost ru 4) - 64)%Z
+           (4 * Z.of_N max_prealloc + Z.of_N (4 + ctor_cost ru 4))%Z _ _
+           (fun F => spec_list_entry F _ (4 + ctor_cost ru 4) (4 * Z.of_N max_prealloc)%Z ltac:(unfold max_prealloc; lia) (spec_uintlist_read_g F ru max_prealloc)));
+    unfold ctor_cost, reuse_cap0, max_prealloc; destruct ru; lia.
+Qed.
+
+Theorem robust_floatlist_entry ru : robust (floatlist_entry ru precap_of_code) 16 10248.
+Proof.
+  apply (robust_of_spec _ 16 (Z.of_N (8 + ctor_cost ru 8) - 64)%Z
+           (8 * Z.of_N max_prealloc + Z.of_N (8 + ctor_cost ru 8))%Z _ _
+           (fun F => spec_list_entry F _ (8 + ctor_cost ru 8) (8 * Z.of_N max_prealloc)%Z ltac:(unfold max_prealloc; lia) (spec_floatlist_read_g F ru max_prealloc)));
+    unfold ctor_cost, reuse_cap0, max_prealloc; destruct ru; lia.
+Qed.
+
+(** a clamp covering only the non-reusing branch (= [Uncapped] on the reuse branch): 6 input
+    bytes announcing 2^23 strings make NewStrListDecoder(true).Read allocate 128 MiB *)
+Theorem reuse_branch_uncapped_alloc :
+  let b := [0; 128; 0; 0; 0; 0] in
+  wf_bytes b /\ length b = 6%nat /\
+  134217728 <= allocated (run_on read_kinds_of_code (strlist_read1_reuse Uncapped) (whole b)).
+Proof.
+  cbv zeta. split; [repeat constructor|]. split; [reflexivity|].
+  vm_compute. discriminate.
+Qed.
+
 (** the pre-fix, uncapped pre-allocation: 8 input bytes, > 96 GiB requested *)
 Theorem uncapped_block_alloc :
   let b := [255; 255; 255; 255; 0; 0; 0; 0] in
